@@ -40,7 +40,7 @@ TIE_SOURCES = {"Gen": ["roberta_generator.py"], "Gen2": ["roberta_generator.py",
                "Rdfs": ["reverse_dfs.py"], "RdfsLoop": ["reverse_dfs.py"], "Tad": ["tad.py"], "TransferTad": ["tad.py"]}
 
 
-def translator_tie(prop, env):
+def translator_tie(prop, env, tier="quick"):
     """Second tie (DESIGN.md 12): re-translate the pure functions of /repo's working tree into
     lean/CR/Extracted/*.lean and re-check the tie theorems (translation == hand model, all arguments) that concern
     this property.  Never fatal: a tie that no longer checks is reported, makes the check look harder (failing-input
@@ -97,7 +97,7 @@ def translator_tie(prop, env):
     # translation validation: the emitted definitions evaluated against the Python functions on sampled arguments
     try:
         import exval
-        tv = exval.run(mods, seed=int(os.environ.get("VERIF_SEED", "0") or 0), n=8)
+        tv = exval.run(mods, seed=int(os.environ.get("VERIF_SEED", "0") or 0), n=8 if tier == "quick" else 150)
     except Exception as e:  # noqa
         tv = {"error": f"{type(e).__name__}: {e}"[:400], "cases": 0, "n_mismatches": 0}
     out["translation_validation"] = tv
@@ -110,6 +110,12 @@ def translator_tie(prop, env):
         untr = [k for k, v in out["units"].items() if v != "translated"]
         out["status"] = "checked"
         out["not_translated"] = untr
+        if tier == "thorough":
+            # independent re-check of the compiled tie modules
+            c = subprocess.run(["lake", "env", "leanchecker"] + out["modules"], cwd=LEAN_DIR, capture_output=True, text=True, env=env)
+            out["leanchecker"] = "ok" if c.returncode == 0 else (c.stdout + c.stderr)[-800:]
+            if c.returncode != 0:
+                out.update(status="broken", detail="leanchecker rejected a tie module: " + out["leanchecker"])
     return out
 
 
@@ -227,6 +233,6 @@ def run(prop, tier):
         if p.returncode != 0:
             res["fatal"] = "leanchecker rejected CR.Props." + prop + ": " + res["leanchecker"]
             return res
-    res["translator_tie"] = translator_tie(prop, env)
+    res["translator_tie"] = translator_tie(prop, env, tier)
     res["lean_wall_s"] = round(time.time() - t0, 2)
     return res
